@@ -422,6 +422,19 @@ func (rn *runner) streamErrDec(g *gen) {
 				err := ed.Err()
 				parts = append(parts, fmt.Sprintf("%s %d %s", showDec(d), uint32(ed.Flags), errKind(err, ed.Flags, cc.Traps)))
 			}
+			// the same calls made directly on the Context: the first one that returns an error is the
+			// step at which ErrDecimal.Err() has to become (and stay) non-nil
+			direct := -1
+			for j, st := range steps {
+				dc := *c
+				var d apd.Decimal
+				def := ctxOps[st.op]
+				if _, e, _ := def.run(&dc, &d, st.x, st.y, st.iarg); e != nil {
+					direct = j
+					break
+				}
+			}
+			parts = append(parts, fmt.Sprintf("direct=%d", direct))
 			return strings.Join(parts, " ")
 		})
 	}
